@@ -4,6 +4,7 @@
    NoCollision points U: the points of two different hosts of the universe U are disjoint. *)
 From Coq Require Import List NArith ZArith.
 From TarsV Require Import Base.Hex Gen.Consts Select.Selectors Select.Hist Select.WeightProofs Select.SelProofs Select.RingProofs Select.Manager Select.ManagerProofs.
+From TarsV Require Xlate.ConHashEquiv.
 Import ListNotations.
 
 (* deterministic: a hash-routed selection does not change the selector and does not depend on any random draw *)
